@@ -362,7 +362,10 @@ class Interp:
                 self.fail(n, "zero denominator")
             return vs[0] / vs[1] if len(vs) == 2 else vs[0]
         if last in TRANSPARENT and len(args) >= 1:
-            return self.ev(args[0], env)
+            v = self.ev(args[0], env)
+            if last in ("list", "tuple") and isinstance(v, Seq):
+                return Seq(v.items)  # a fresh container: in-place methods on it leave the argument alone
+            return v
         self.fail(n, "call not modelled")
 
     # -- statements
@@ -378,6 +381,16 @@ class Interp:
                 continue
             if isinstance(st, ast.Pass):
                 continue
+            if (isinstance(st, ast.Expr) and isinstance(st.value, ast.Call) and isinstance(st.value.func, ast.Attribute) and isinstance(st.value.func.value, ast.Name)
+                    and st.value.func.attr in ("reverse", "append") and isinstance(env.get(st.value.func.value.id), Seq)):
+                # in-place list methods on a local list (aliases share the Seq object, as in Python)
+                tgt = env[st.value.func.value.id]
+                if st.value.func.attr == "reverse" and not st.value.args:
+                    tgt.items.reverse()
+                    continue
+                if st.value.func.attr == "append" and len(st.value.args) == 1:
+                    tgt.items.append(self.ev(st.value.args[0], env))
+                    continue
             if isinstance(st, ast.Assign) and len(st.targets) == 1 and isinstance(st.targets[0], ast.Name):
                 env[st.targets[0].id] = self.ev(st.value, env)
                 continue
